@@ -105,6 +105,11 @@ DStep(d0, ev) ==
                 m == MayParse(s.g, ev.b)
             IN IF s.closed THEN d
                ELSE IF ~Eq(m, <<>>) THEN [d EXCEPT !.socks[u].maybe = TRUE, !.may = @ \cup {m[1]}]
+               \* an answer (to somebody else's request) that arrives before the first request of this
+               \* search is not "in an interval": whether it ends the search is not fixed
+               \* nor is one that arrives at the very instant an interval ends (either order is acceptable)
+               ELSE IF (s.sends = 0 \/ ev.t = s.t0 + s.sends * INTERVAL) /\ ~Eq(e, <<>>)
+                    THEN [d EXCEPT !.socks[u].maybe = TRUE, !.may = @ \cup {e[1]}]
                ELSE IF Eq(e, <<>>) THEN d
                ELSE [d EXCEPT !.socks[u].answered = TRUE, !.found = @ \cup {e[1]}]
        [] k = "udp_close" -> [d EXCEPT !.socks[ev.u + 1].closed = TRUE]
@@ -115,7 +120,7 @@ DStep(d0, ev) ==
                 d3 == IF ev.res = "ok" /\ \E x \in got : \A y \in d.found \cup d.may : ~Eq(x, y) THEN DV(d2, "SpuriousEntry") ELSE d2
                 d4 == IF ev.res = "ok" /\ \E y \in d.found : \A x \in got : ~Eq(x, y) THEN DV(d3, "MissingEntry") ELSE d3
                 d5 == IF \E u \in 1..Len(d.socks) : ~d.socks[u].closed THEN DV(d4, "SocketLeftOpen") ELSE d4
-                d6 == IF \E u \in 1..Len(d.socks) : d.socks[u].sends = 0 THEN DV(d5, "NoRequest") ELSE d5
+                d6 == IF \E u \in 1..Len(d.socks) : d.socks[u].sends = 0 /\ ~d.socks[u].maybe THEN DV(d5, "NoRequest") ELSE d5
             IN [d6 EXCEPT !.returned = TRUE]
        [] k = "end" ->
             LET d1 == IF d.called /\ ~d.returned THEN DV(d, "DiscoverHangs") ELSE d
